@@ -31,17 +31,29 @@ namespace occa {
     }
 
     hash_t device::kernelHash(const occa::json &props) const {
-      return (
-        occa::hash(props["compiler"])
-        ^ props["compiler_flags"]
-        ^ props["compiler_env_script"]
-        ^ props["compiler_vendor"]
-        ^ props["compiler_language"]
-        ^ props["compiler_linker_flags"]
-        ^ props["compiler_shared_flags"]
-        ^ props["include_occa"]
-        ^ props["link_occa"]
-      );
+      // Hash one object that labels each value with its property name.
+      // XOR-ing the hashes of the values could not tell which property held
+      // which value: exchanged or repeated values gave the same hash
+      static const char *hashedProps[] = {
+        "compiler",
+        "compiler_flags",
+        "compiler_env_script",
+        "compiler_vendor",
+        "compiler_language",
+        "compiler_linker_flags",
+        "compiler_shared_flags",
+        "include_occa",
+        "link_occa"
+      };
+
+      occa::json key;
+      for (const char *name : hashedProps) {
+        const occa::json &value = props[name];
+        if (value.isInitialized()) {
+          key[name] = value;
+        }
+      }
+      return occa::hash(key);
     }
 
     //---[ Stream ]---------------------
